@@ -1,11 +1,14 @@
 #!/bin/bash
-# run every claimed check (quick) sequentially on /repo; summary to /tmp/runall.summary
-cd /verif
-: > /tmp/runall.summary
-for p in $(python3 -c "import json;print(' '.join(c['property_id'] for c in json.load(open('/verif/MANIFEST.json'))['checks']))"); do
+# run every claimed check sequentially; usage: tools/run_all.sh [quick|thorough]; summary -> $RUNALL_SUMMARY (default /tmp/runall.summary)
+ROOT="$(cd "$(dirname "$0")/.." && pwd)"
+OUT=${RUNALL_SUMMARY:-/tmp/runall.summary}
+LOGS=${RUNALL_LOGS:-/tmp}
+cd "$ROOT"
+: > "$OUT"
+for p in $(python3 -c "import json;print(' '.join(c['property_id'] for c in json.load(open('$ROOT/MANIFEST.json'))['checks']))"); do
   s=$(date +%s)
-  ./check $p ${1:+--tier $1} > /tmp/chk-$p.out 2> /tmp/chk-$p.err; rc=$?
+  ./check $p ${1:+--tier $1} > "$LOGS/chk-$p.out" 2> "$LOGS/chk-$p.err"; rc=$?
   e=$(date +%s)
-  echo "$p rc=$rc viol=$(grep -c VIOLATION /tmp/chk-$p.out) known=$(grep -c KNOWN-FINDING /tmp/chk-$p.out) $((e-s))s | $(tail -1 /tmp/chk-$p.err | cut -c1-160)" >> /tmp/runall.summary
+  echo "$p rc=$rc viol=$(grep -c '^VIOLATION' "$LOGS/chk-$p.out") known=$(grep -c '^KNOWN-FINDING' "$LOGS/chk-$p.out") $((e-s))s | $(tail -1 "$LOGS/chk-$p.err" | cut -c1-160)" >> "$OUT"
 done
-echo DONE >> /tmp/runall.summary
+echo DONE >> "$OUT"
